@@ -367,6 +367,101 @@ def _mk_units(rng, c, spec):
     return True
 
 
+# codons one SNV away from a target residue, by base position (used by the cleavage-context stratum)
+def _codons_one_snv_from(target_codons):
+    out = []
+    for t in target_codons:
+        for k in range(3):
+            for b in 'ACGT':
+                if b != t[k]:
+                    c = t[:k] + b + t[k + 1:]
+                    if c not in ('TAA', 'TAG', 'TGA') and c not in target_codons:
+                        out.append((c, k, t[k]))
+    return out
+
+
+def _mk_ctx(rng, c, spec):
+    """Cleavage-context stratum: the CDS of a single-isoform coding transcript gets planted motifs around which one SNV creates
+    or removes a cleavage site THROUGH ITS CONTEXT - the residue before K|P / R|P becomes W / M (trypsin cuts WK|P and MR|P),
+    the P after K / R is replaced or created, a K / R is created or removed - and 1-3 further records lie within ~40 nt
+    downstream, so that the peptides behind the changed site carry other variants too."""
+    from harness.model.seqmodel import translate
+    c.ref = refgen.make_reference(rng, n_genes=1, coding_p=1.0, sec_p=0.0, nf_p=0.0, min_exons=1, max_exons=3,
+                                  exon_len=(70, 160))
+    tx = c.ref.genes[0].txs[0]
+    if not tx.coding:
+        return False
+    gene = tx.gene
+    n_cod = (tx.cds[1] - tx.cds[0]) // 3
+    if n_cod < 16:
+        return False
+    vs = {}
+    kind = rng.choice(['p2-gain', 'p2-gain', 'p2-gain', 'p1prime', 'p1'])
+    k0 = rng.randint(3, n_cod - 10)
+    base = tx.cds[0] + 3 * k0
+
+    def plant(codon_index, codon):
+        for j, b in enumerate(codon):
+            c.ref.set_gene_base(gene, tx.tx2gene(tx.cds[0] + 3 * codon_index + j), b)
+    K, R, P = ['AAA', 'AAG'], ['CGT', 'CGC', 'CGA', 'CGG', 'AGA', 'AGG'], ['CCT', 'CCC', 'CCA', 'CCG']
+    if kind == 'p2-gain':
+        if rng.random() < 0.5:
+            cod, pos, newb = rng.choice(_codons_one_snv_from(['TGG']))     # X -> W before K P
+            plant(k0, cod); plant(k0 + 1, rng.choice(K)); plant(k0 + 2, rng.choice(P))
+        else:
+            cod, pos, newb = rng.choice(_codons_one_snv_from(['ATG']))     # X -> M before R P
+            plant(k0, cod); plant(k0 + 1, rng.choice(R)); plant(k0 + 2, rng.choice(P))
+        t = base + pos
+    elif kind == 'p1prime':
+        plant(k0 + 1, rng.choice(K + R))
+        if rng.random() < 0.5:
+            cod, pos, newb = rng.choice(_codons_one_snv_from(P))           # X -> P after K/R: site lost
+            plant(k0 + 2, cod)
+        else:
+            cod = rng.choice(P)                                            # P -> X after K/R: site gained
+            pos = rng.choice([0, 1])
+            newb = rng.choice([b for b in 'ACGT' if b != cod[pos]])
+            plant(k0 + 2, cod)
+        t = base + 6 + pos
+    else:
+        if rng.random() < 0.5:
+            cod, pos, newb = rng.choice(_codons_one_snv_from(K + R))       # X -> K/R: site gained
+            plant(k0 + 1, cod)
+        else:
+            cod = rng.choice(K + R)
+            pos = rng.choice([0, 1])
+            newb = rng.choice([b for b in 'ACGT' if b != cod[pos]])
+            plant(k0 + 1, cod)
+        t = base + 3 + pos
+    # planting may have created stop codons in frame? (planted codons are never stops); keep the rest of the CDS as it was
+    g = tx.tx2gene(t)
+    gs = c.ref.gene_seq(gene)
+    v0 = Small(gene, tx, g, gs[g], newb)
+    if translate(c.ref.tx_seq(tx)[tx.cds[0]:tx.cds[1]]).count('*'):
+        return False
+    vs[v0.id] = v0
+    for _ in range(rng.randint(1, 3)):
+        t2 = t + rng.randint(4, 45)
+        if t2 >= tx.cds[1] - 3:
+            continue
+        v = gvfgen.rand_small(rng, c.ref, tx, tx.tx2gene(t2), max_indel=2, snv_p=0.75)
+        if v is not None:
+            vs[v.id] = v
+    if rng.random() < 0.3:
+        t2 = t - rng.randint(4, 30)
+        if t2 > tx.cds[0] + 3:
+            v = gvfgen.rand_small(rng, c.ref, tx, tx.tx2gene(t2), max_indel=2, snv_p=0.75)
+            if v is not None:
+                vs[v.id] = v
+    if len(vs) < 2:
+        return False
+    c.cfg['rule'] = 'trypsin'
+    c.cfg['exception'] = rng.choice([None, None, 'auto'])
+    c.files = [('v1.gvf', 'gSNP', sorted(vs.values(), key=lambda v: (v.gstart, v.gend, v.alt)))]
+    c.note = {'ctx_kind': kind}
+    return True
+
+
 def make_small(rng, ref, tx, n):
     return gvfgen.make_small_variants(rng, ref, tx, n, cluster=rng.random() < 0.3, mnv_p=0.0, max_indel=2)
 
